@@ -321,9 +321,19 @@ func (g *c28Gen) setUsed(prof []osutil.MountEntry) {
 	}
 }
 
+// add appends e unless its mount point is taken or it would put an entry
+// beneath a file or symlink entry (only directory kinds contain other entries).
 func (g *c28Gen) add(prof []osutil.MountEntry, e osutil.MountEntry) []osutil.MountEntry {
 	if g.used[e.Dir] {
 		return prof
+	}
+	for i := range prof {
+		if !c28DirKind(&e) && strings.HasPrefix(prof[i].Dir, e.Dir+"/") {
+			return prof
+		}
+		if !c28DirKind(&prof[i]) && strings.HasPrefix(e.Dir, prof[i].Dir+"/") {
+			return prof
+		}
 	}
 	g.used[e.Dir] = true
 	return append(prof, e)
